@@ -308,12 +308,13 @@ static void run_prog (void *arg) {
 		case OP_NOTE_EXPIRY: if (notes[o->a]) { nsync_time t; vf_log ("call nsync_note_expiry %s", vf_name_of (notes[o->a])); t = nsync_note_expiry (notes[o->a]); vf_log ("ret nsync_note_expiry %lld:%ld", (long long) NSYNC_TIME_SEC (t), (long) NSYNC_TIME_NSEC (t));
 				{ int64_t got = nsync_time_cmp (t, nsync_time_no_deadline) == 0 ? INT64_MAX : (int64_t) NSYNC_TIME_SEC (t) * 1000000000 + NSYNC_TIME_NSEC (t);
 				  if (got != exp_min[o->a]) { vf_violation ("expiry-min", "nsync_note_expiry = %lld but the minimum of the deadlines from the note to its root is %lld", (long long) got, (long long) exp_min[o->a]); } } } break;
-		case OP_CTR_NEW: ctr_init[o->a] = (uint32_t) o->b; vf_log ("call nsync_counter_new %d", o->b); vf_api_enter (); ctrs[o->a] = nsync_counter_new ((uint32_t) o->b); vf_api_leave (); vf_log ("ret nsync_counter_new %s", ctrs[o->a] ? vf_name_of (ctrs[o->a]) : "NULL"); break;
+		case OP_CTR_NEW: ctr_init[o->a] = (uint32_t) o->b; vf_log ("call nsync_counter_new %u", (unsigned) o->b); vf_api_enter (); ctrs[o->a] = nsync_counter_new ((uint32_t) o->b); vf_api_leave (); vf_log ("ret nsync_counter_new %s", ctrs[o->a] ? vf_name_of (ctrs[o->a]) : "NULL"); break;
 		case OP_CTR_ADD: if (ctrs[o->a]) { uint32_t r; long t0 = vf_steps (); vf_log ("call nsync_counter_add %s %d", vf_name_of (ctrs[o->a]), o->b); vf_api_enter (); r = nsync_counter_add (ctrs[o->a], o->b); vf_api_leave (); vf_log ("ret nsync_counter_add %u", r); chist_add (o->a, 0, o->b, r, t0, vf_steps ()); } break;
 		case OP_CTR_VALUE: if (ctrs[o->a]) { uint32_t r; long t0 = vf_steps (); vf_log ("call nsync_counter_value %s", vf_name_of (ctrs[o->a])); vf_api_enter (); r = nsync_counter_value (ctrs[o->a]); vf_api_leave (); vf_log ("ret nsync_counter_value %u", r); chist_add (o->a, 1, 0, r, t0, vf_steps ()); } break;
 		case OP_CTR_WAIT: if (ctrs[o->a]) { uint32_t r; nsync_time t = mk_deadline (o, dt, sizeof (dt)); vf_log ("call nsync_counter_wait %s %s", vf_name_of (ctrs[o->a]), dt); vf_api_enter (); r = nsync_counter_wait (ctrs[o->a], t); vf_api_leave (); vf_log ("ret nsync_counter_wait %u", r);
 				if (r == 0) { int q; for (q = 0; q + 1 < nvar; q++) { vf_log ("data r x%d %d", q, vars[q]); } }
-				if (r != 0 && dl_ns (o) > vf_now ()) { vf_violation ("early-timeout", "nsync_counter_wait returned non-zero before its deadline"); } } break;
+				if (r != 0 && dl_ns (o) > vf_now ()) { vf_violation ("early-timeout", "nsync_counter_wait returned non-zero before its deadline"); }
+				if (r == 0 && vf_counter_peek (ctrs[o->a]) != 0) { vf_violation ("ctr-wait-zero", "nsync_counter_wait returned 0 although the counter holds %u (a counter never leaves zero again: API contract)", vf_counter_peek (ctrs[o->a])); } } break;
 		case OP_CTR_FREE: if (ctrs[o->a]) { nsync_counter c = ctrs[o->a]; vf_log ("call nsync_counter_free %s", vf_name_of (c)); ctrs[o->a] = NULL; vf_api_enter (); nsync_counter_free (c); vf_api_leave (); vf_log ("ret nsync_counter_free -"); } break;
 		case OP_ONCE: {
 			static const char *nm[] = { "nsync_run_once", "nsync_run_once_arg", "nsync_run_once_spin", "nsync_run_once_arg_spin" };
@@ -445,7 +446,7 @@ static int parse_op (char *s, struct op *o) {
 	else if (IS ("note_wait")) { o->code = OP_NOTE_WAIT; o->a = A (1, "n"); parse_dl (n > 2 ? tok[2] : NULL, o); }
 	else if (IS ("note_free")) { o->code = OP_NOTE_FREE; o->a = A (1, "n"); }
 	else if (IS ("note_expiry")) { o->code = OP_NOTE_EXPIRY; o->a = A (1, "n"); }
-	else if (IS ("ctr_new")) { o->code = OP_CTR_NEW; o->a = A (1, "k"); o->b = n > 2 ? atoi (tok[2]) : 0; }
+	else if (IS ("ctr_new")) { o->code = OP_CTR_NEW; o->a = A (1, "k"); o->b = n > 2 ? (int) strtoul (tok[2], NULL, 10) : 0; } /* any uint32 value */
 	else if (IS ("ctr_add")) { o->code = OP_CTR_ADD; o->a = A (1, "k"); o->b = n > 2 ? atoi (tok[2]) : 0; }
 	else if (IS ("ctr_value")) { o->code = OP_CTR_VALUE; o->a = A (1, "k"); }
 	else if (IS ("ctr_wait")) { o->code = OP_CTR_WAIT; o->a = A (1, "k"); parse_dl (n > 2 ? tok[2] : NULL, o); }
